@@ -17,7 +17,7 @@ import ast
 
 from ..absint import EventAnalysis, run_events
 from ..helpers import collect_loop, flows_from
-from ..facts import abs_range, atoms, call_is, equality_atoms, index_of, strip
+from ..facts import alternatives, abs_range, atoms, call_is, equality_atoms, index_of, strip
 from ..model import AnalysisError, norm
 from ..terms import NEG, is_const, show, subterms, summarize
 
@@ -64,28 +64,9 @@ def implies_match(pc, eqs) -> bool:
             return any({strip(atom[2]), strip(atom[3])} == {strip(a), strip(b)} for a, b in eqs)
         return False
 
-    def positive(c, truth):
-        """list of disjunct-lists: returns DNF fragments as list of alternatives, each a list of atoms"""
-        if c[0] == "un" and c[1] == "not":
-            return positive(c[2], not truth)
-        if c[0] == "cmp":
-            return [[c if truth else ("cmp", NEG[c[1]], c[2], c[3])]]
-        if c[0] == "bool":
-            kind = c[1]
-            if (kind == "and") == truth:       # conjunction
-                acc = [[]]
-                for x in c[2]:
-                    alts = positive(x, truth)
-                    acc = [p + q for p in acc for q in alts]
-                return acc
-            out = []                           # disjunction
-            for x in c[2]:
-                out += positive(x, truth)
-            return out
-        return [[c if truth else ("un", "not", c)]]
     # the pc is a conjunction; it implies the match iff some conjunct's every alternative contains a matching equality
     for c, truth in pc:
-        alts = positive(c, truth)
+        alts = alternatives(c, truth)
         if alts and all(any(is_eq(a) for a in alt) for alt in alts):
             return True
     return False
